@@ -402,7 +402,9 @@ func (c tnameCase) Nontrivial() bool {
 
 var c15Paths = []string{"github.com/x/a", "k8s.io/api/core/v1", "example.com/self", "gopkg.in/yaml.v3", "a/b", "other.io/a", "time", "encoding/json", "x/v2/a", "host.io/x.y/z-w",
 	// packages whose whole import path is one word — the word other paths end in, and so the local name those paths get
-	"a", "yaml", "self", "v1"}
+	"a", "yaml", "self", "v1",
+	// hosts that start with a digit
+	"9fans.net/go/coll", "4d63.com/x"}
 var c15Names = []string{"T", "List", "Map", "P", "int", "string", "error", "Option"}
 
 func genRef(r *Rng, depth, width int, needPath bool) RefT {
